@@ -28,6 +28,10 @@ CHECKS = {
    technique="TLA+ spec (Pages.tla: list pages written vs. linked per project shape) model-checked with TLC; TLC-enumerated shapes built end to end by FORD and every link crawled before and after relocating the tree",
    text="TLC checks NavLinksWritten (every list page linked from the navigation bar or front page is written) for all project shapes (0..2 entities of each page-bearing kind x incl_src x front-page lists) and enumerates the shapes; each is rendered as a project, built by the real FORD with an option set (search, graph incl. table fallback, proc_internals, display, sort, page_dir), and every href/src/xlink:href and search-index url of every page must be relative, resolve to an existing file under the output directory and name an existing id; the output tree is then moved and crawled again.",
    note="Model checking covers page/navigation consistency only; link correctness itself is decided by the crawl (exploration). Shapes: exhaustive for counts 0/1, counts 2 and option sets sampled deterministically in quick. Trusted: TLC, bs4 html.parser, graphviz."),
+ "C12": dict(level="exploration", ref="DESIGN.md 6/C12, 4.0",
+   technique="TLA+ schedule model (Determinism.tla: nondeterministic discovery order, first-come numbering) model-checked with TLC; differential replay of the real FORD over file-order permutations, hash seeds, worker counts and output-directory histories",
+   text="TLC shows on the schedule model that page numbering is schedule-independent iff files are parsed in a canonical order (and finds the counterexample for discovery-order parsing). The check then runs the real FORD on generated multi-file projects with equally named entities: every permutation of the file enumeration order (harness-supplied, in-process), PYTHONHASHSEED in {0,1,3(,2,17)}, parallel in {0,2(,8)}, output directory absent / stale from another project / from the same project (CLI), comparing whole output trees byte for byte (graphs and search index on).",
+   note="Exploration over schedules: exhaustive over file orders for <=4 files in thorough, sampled in quick; 4 hand-sized generated projects. Trusted: TLC, graphviz determinism, the OS."),
 }
 
 NOT_YET = {}
